@@ -6,7 +6,7 @@ CONSTANTS
   Fudges = {0, 2}
   Skews <- MCSkews6
   Errors = {0, 16}
-  Kinds = {"query", "response", "stream"}
+  Kinds = {"query", "response"}
   MaxEnv = 3
   MaxFaults = 1
 INVARIANT TypeOK
